@@ -14,7 +14,7 @@ from .. import fs as simfs
 PROP = 'C09'
 LEVEL = 'exploration'
 OWN = ('snapshot_state_mismatch', 'snapshot_position_mismatch', 'dump_not_decodable', 'dump_foreign', 'failed_load_acknowledged', 'received_snapshot_corrupt', 'compacted_without_snapshot',
-       'lagging_node_not_caught_up', 'log_empty', 'loaded_state_mismatch')
+       'lagging_node_not_caught_up', 'log_empty', 'loaded_state_mismatch', 'deleted_attribute_survives_install')
 INVARIANTS = OWN + ('state_mismatch', 'applied_back', 'log_gap')
 for _i in OWN:
     INV_PROP[_i] = PROP
@@ -54,40 +54,71 @@ def snap_classes():
             self.n += 1
             return (self.n, self.ch)
     _c['SnapCons'] = SnapCons
+    SimObj = get_classes()['SimObj']
+
+    class SnapObj(SimObj):
+        """The workload object plus an attribute that comes and goes: the set of attributes of the replicated object is part
+        of its state (an attribute deleted before a snapshot's position does not exist after the snapshot was loaded)."""
+
+        @so.replicated
+        def setx(self, tag):
+            self._rec(tag, ('setx',))
+            self.cnt += 1
+            self.h = mix(self.h, tag)
+            self.x = tag
+            return (self.cnt, self.h)
+
+        @so.replicated
+        def delx(self, tag):
+            self._rec(tag, ('delx',))
+            self.cnt += 1
+            self.h = mix(self.h, tag)
+            if hasattr(self, 'x'):
+                del self.x
+            return (self.cnt, self.h)
+    _c['SnapObj'] = SnapObj
     return _c
 
 
 class SnapModel(object):
-    INIT = (0, 0, (None,) * NKEYS, 0, 0)
+    INIT = (0, 0, (None,) * NKEYS, 0, 0, None)
 
     @staticmethod
     def step(state, name, args):
-        cnt, h, kv, cn, ch = state
+        cnt, h, kv, cn, ch, x = state
         tag = args[0]
         if name in ('append', 'echo'):
             (cnt, h, kv), res, _ = KVModel.step((cnt, h, kv), name, args)
-            return (cnt, h, kv, cn, ch), res, False
+            return (cnt, h, kv, cn, ch, x), res, False
         if name == 'cadd':
             ch = mix(ch, tag)
             cn += 1
-            return (cnt, h, kv, cn, ch), (cn, ch), False
+            return (cnt, h, kv, cn, ch, x), (cn, ch), False
+        if name in ('setx', 'delx'):
+            cnt += 1
+            h = mix(h, tag)
+            x = tag if name == 'setx' else None
+            return (cnt, h, kv, cn, ch, x), (cnt, h), False
         raise HarnessError('C09 model: %r' % (name,))
 
     @staticmethod
     def observe(node):
         c = priv(node, 'SyncObj', 'consumers')[0]
-        return KVModel.observe(node) + (c.n, c.ch)
+        return KVModel.observe(node) + (c.n, c.ch, getattr(node, 'x', None))
 
     @staticmethod
     def from_snapshot(data0):
         """state tuple from the snapshot's data[0] = [selfData, consumerData]"""
         sd, cd = data0[0], data0[1]
         kv = sd.get('kv', {})
-        return (sd.get('cnt'), sd.get('h'), tuple(kv.get(i) for i in range(NKEYS)), cd.get('n'), cd.get('ch'))
+        return (sd.get('cnt'), sd.get('h'), tuple(kv.get(i) for i in range(NKEYS)), cd.get('n'), cd.get('ch'), sd.get('x'))
 
 
 class SnapApp(KVApp):
     model = SnapModel
+
+    def node_class(self):
+        return snap_classes()['SnapObj']
 
     def make_consumers(self, world, host):
         return [snap_classes()['SnapCons']()]
@@ -131,6 +162,10 @@ class SnapApp(KVApp):
                 node.kv = dict((i, v) for i, v in enumerate(state[2]) if v is not None)
                 c = priv(node, 'SyncObj', 'consumers')[0]
                 c.n, c.ch = state[3], state[4]
+                if len(state) > 5 and state[5] is not None:
+                    node.x = state[5]
+                elif hasattr(node, 'x'):
+                    del node.x
                 return data
 
             def checker():
@@ -159,6 +194,12 @@ class SnapApp(KVApp):
         if args[0] == 'cadd':
             priv(host.node, 'SyncObj', 'consumers')[0].cadd(args[1], callback=cb)
             return 'ok'
+        if args[0] == 'setx':
+            host.node.setx(args[1], callback=cb)
+            return 'ok'
+        if args[0] == 'delx':
+            host.node.delx(args[1], callback=cb)
+            return 'ok'
         raise HarnessError('C09 submit %r' % (args,))
 
 
@@ -176,6 +217,8 @@ class SnapOracle(RaftOracle):
         self.check_log_matching = False
         self.userser = world.cfg.get('userser')
         self.userser_dropped = None
+        self.stale_attr = None
+        self.installed = set()
         self.queue = []              # (host, raw bytes, where) to verify after the event
         self.produced = 0
         self.verified = 0
@@ -191,7 +234,31 @@ class SnapOracle(RaftOracle):
             if raw is not None:
                 self.queue.append((fs.host, bytes(raw), 'dump file after rename'))
 
+    def _stale_attribute(self):
+        """A snapshot was installed on a live object: an attribute that was deleted before the snapshot's position must not
+        survive on the receiver (the built-in loader only assigns what the snapshot holds)."""
+        w = self.w
+        for l in w.step_loads:
+            if l[1]:
+                self.installed.add(l[0])
+        for i in sorted(self.installed):
+            n = w.hosts[i].node
+            if n is None:
+                continue
+            k = n.raftLastApplied
+            if k in self.states and getattr(n, 'x', None) is not None and self.states[k][5] is None:
+                self.stale_attr = dict(host=i, position=k, x=getattr(n, 'x', None), evno=w.evno)
+                RaftOracle.flag(self, 'deleted_attribute_survives_install', 'host %d installed a snapshot in whose state the attribute x does not exist (deleted by an earlier command); at position %d its object still has x=%r from before the installation' % (
+                    i, k, getattr(n, 'x', None)), dict(host=i))
+                return
+
     def flag(self, inv, msg, detail=None):
+        if self.stale_attr is None and not self.userser and inv != 'deleted_attribute_survives_install':
+            self._extend_model(max(self.G) if self.G else 1)
+            self._stale_attribute()
+        if self.stale_attr is not None and inv != 'deleted_attribute_survives_install':
+            detail = dict(detail or {})
+            detail.setdefault('stale_attribute', self.stale_attr)
         if self.userser and self.userser_dropped is not None:
             # the known user-deserializer finding's other face: a received snapshot had to be loaded over a log that
             # reached beyond it (the acknowledged entries after its position are gone) - what follows in this run is
@@ -324,6 +391,8 @@ class SnapSched(Scheduler):
         ev = Scheduler.make_submit(self)
         if ev is not None and self.rng.random() < 0.3:
             return ['sub', ev[1], 'cadd', ev[3]]
+        if ev is not None and self.rng.random() < 0.2:
+            return ['sub', ev[1], self.rng.choice(['setx', 'delx']), ev[3]]
         return ev
 
 
@@ -491,6 +560,9 @@ def match_known(k, viol, events, cfg):
         return False
     if m.get('kind') == 'userser':
         return bool(cfg.get('userser'))
+    if m.get('kind') == 'stale_attribute':
+        # the installed snapshot did not remove an attribute that had been deleted: that violation and what follows from it
+        return viol['inv'] == 'deleted_attribute_survives_install' or bool((viol.get('detail') or {}).get('stale_attribute'))
     if m.get('kind') == 'userser_after_stale_load':
         # consequences of the stale snapshot load (K-C09-userser-stale-snapshot) later in the same run: the applied index
         # went back, or the snapshot was loaded over a log that reached beyond it
